@@ -121,6 +121,9 @@ func verifAssert(c bool, label string) {
 }
 func verifReach(label string) {}
 func verifTrace(msg string)   {}
+
+// verifUnmodelled: the environment model cannot answer; natively there is nothing to fall back on.
+func verifUnmodelled(msg string) { panic("verif environment model: " + msg) }
 func verifYield()             {}
 func verifTier() int {
 	if os.Getenv("VERIF_TIER") == "thorough" {
